@@ -1633,6 +1633,13 @@ func (srv *server) Stop(ctx context.Context) error {
 			err = ctx.Err()
 			return
 		case <-done:
+			// delayed will messages that are still waiting for their timers: their goroutines must not outlive
+			// the server (and publish into a stopped server when the timer fires)
+			srv.mu.Lock()
+			for _, w := range srv.willMessage {
+				w.signal(false)
+			}
+			srv.mu.Unlock()
 			for _, v := range srv.plugins {
 				zaplog.Info("unloading plugin", zap.String("name", v.Name()))
 				err := v.Unload()
